@@ -508,6 +508,43 @@ def minimise(bins, workdir, run, k, clause):
     return with_solve(s), k
 
 
+def chunk_runs(kind, lo, hi, seed, ladder):
+    return ladder[lo:hi] if kind == "ladder" else [gen_run(seed, i) for i in range(lo, hi)]
+
+
+def scenario_fails(bins, workdir, prefix, run, k, clause):
+    """Execute `prefix` runs and then `run` in ONE fresh driver process; does `clause` show on run's solve k?"""
+    rs = execute(bins, list(prefix) + [run], workdir)
+    r = rs[-1]
+    return k < len(r["clauses"]) and clause in r["clauses"][k]
+
+
+def find_prefix(bins, workdir, v, seed, ladder):
+    """A violation that does not show when its run executes alone in a fresh driver process depends
+    on state earlier runs left in the process (e.g. a function-local static in the generated
+    code).  Find a minimal list of earlier runs of the same chunk that makes it reappear."""
+    kind, lo, hi = v["chunk"]
+    runs = chunk_runs(kind, lo, hi, seed, ladder)
+    run = v["run"]
+    prefix = [r for r in runs[: v["pos"]] if r["variant"] == run["variant"]]
+    if not scenario_fails(bins, workdir, prefix, run, v["k"], v["clause"]):
+        return None
+    prefix = K.ddmin(prefix, lambda cand: scenario_fails(bins, workdir, cand, run, v["k"], v["clause"]), budget=80)
+    if len(prefix) == 1 and scenario_fails(bins, workdir, [], run, v["k"], v["clause"]):
+        prefix = []
+    # shrink the surviving prefix runs to single solves where possible
+    out = []
+    for i, pr in enumerate(prefix):
+        best = pr
+        for s_ in pr["solves"]:
+            cand = dict(pr, solves=[dict(s_, reset=0)])
+            if scenario_fails(bins, workdir, out + [cand] + prefix[i + 1:], run, v["k"], v["clause"]):
+                best = cand
+                break
+        out.append(best)
+    return out
+
+
 def replay_doc(run, k, clause, seed, trace):
     return {"seed": seed, "variant": run["variant"], "nsys": run["nsys"], "solves": run["solves"],
             "origin": run.get("origin"), "violating_solve": k, "clause": clause,
@@ -519,7 +556,7 @@ def replay(path):
     scratch = K.scratch_root()
     bins = build(scratch)
     run = {"variant": doc["variant"], "nsys": doc["nsys"], "solves": doc["solves"]}
-    r = execute(bins, [run], scratch, trace=True)[0]
+    r = execute(bins, list(doc.get("earlier_runs_in_same_process", [])) + [run], scratch, trace=True)[-1]
     k, clause = doc["violating_solve"], doc["clause"]
     got = r["clauses"][k] if k < len(r["clauses"]) else []
     print(f"replay {path}: variant={doc['variant']} solve={k} expected clause={clause} observed={got}")
@@ -603,7 +640,7 @@ def _worker(task):
         if faulted:
             stats["faulted_runs"] += 1
         for k, c in violations_of(run, r):
-            viol.append({"run": run, "k": k, "clause": c, "index": (kind, lo + n)})
+            viol.append({"run": run, "k": k, "clause": c, "index": (kind, lo + n), "chunk": (kind, lo, hi), "pos": n})
     stats["triples"] = sorted(stats["triples"])
     stats["traces"] = sorted(stats["traces"])
     # keep at most a few violations per chunk (they are re-derived on minimisation)
@@ -673,16 +710,30 @@ def main(argv):
         run, k, clause = v["run"], v["k"], v["clause"]
         wd = os.path.join(scratch, "min")
         os.makedirs(wd, exist_ok=True)
+        prefix = []
         if clause in ("hang", "crash"):
             mrun, mk = run, 0
-        else:
+        elif scenario_fails(bins, wd, [], run, k, clause):
             mrun, mk = minimise(bins, wd, run, k, clause)
-        rr = execute(bins, [mrun], wd, trace=True)[0]
+        else:
+            prefix = find_prefix(bins, wd, v, seed, ladder)
+            if prefix is None:
+                print(f"HARNESS: violation {key} did not reproduce, neither alone nor after the earlier runs of its chunk", file=sys.stderr)
+                exit_code = K.EXIT_HARNESS
+                continue
+            mrun, mk = run, k
+        rr = execute(bins, prefix + [mrun], wd, trace=True)[-1]
         if clause not in (rr["clauses"][mk] if mk < len(rr["clauses"]) else []):
             print(f"HARNESS: violation {key} did not reproduce after minimisation", file=sys.stderr)
             exit_code = K.EXIT_HARNESS
             continue
-        path = K.write_replay(PROP, seed, len(replays), replay_doc(mrun, mk, clause, seed, rr.get("traces", [])))
+        doc = replay_doc(mrun, mk, clause, seed, rr.get("traces", []))
+        if prefix:
+            doc["earlier_runs_in_same_process"] = prefix
+            doc["driver_lines"] = sum((encode_run(i, r) for i, r in enumerate(prefix + [mrun])), [])
+            print(f"note: this violation needs {len(prefix)} earlier Naunet object(s) in the same process "
+                  f"(state shared between objects or calls in the generated code)")
+        path = K.write_replay(PROP, seed, len(replays), doc)
         replays.append(path)
         print(f"violated clause: {clause}; variant={key[0]} entry={'PyWrapSolve' if key[2] else 'Solve'}; "
               f"minimised to {len(mrun['solves'])} Solve call(s), outcomes={mrun['solves'][mk].get('outcomes', mrun['solves'][mk].get('nsteps'))}")
